@@ -347,8 +347,9 @@ class PPO(RLAlgorithm):
         if not self.training and isinstance(self.action_space, spaces.Box):
             if self.actor.squash_output:
                 action = self.actor.scale_action(action)
-            else:
-                action = np.clip(action, self.action_space.low, self.action_space.high)
+
+            # (rescaling a saturated output can overshoot the bound by one ulp)
+            action = np.clip(action, self.action_space.low, self.action_space.high)
 
         return (
             action,
